@@ -105,6 +105,9 @@ def build_fn(item, spec, canary, log):
     mask = mask_source(text)
     body_open = _loop_body_open(mask, 0) if item.kind == "fn" else None
     if item.kind != "fn":
+        if item.kind in ("struct", "enum") and not text.lstrip().startswith("pub"):
+            text = "pub " + text.lstrip()
+            log.append("%s: private item made pub (visibility only)" % fn_id)
         if item.kind == "struct" and spec.get("pub_fields"):
             # make private fields visible to `open spec fn`s (visibility only; listed in the unit)
             text, n = re.subn(r"(?m)^(\s+)(?!pub\b)(\w+\s*:)", r"\1pub \2", text)
@@ -137,6 +140,9 @@ def build_fn(item, spec, canary, log):
         where, anchor, proof = h
         if where == "body_start":
             body = "{\n" + proof + "\n" + body[1:]
+            continue
+        if where == "body_end":
+            body = body.rstrip()[:-1] + "\n" + proof + "\n}"
             continue
         cnt = body.count(anchor)
         if cnt != 1:
